@@ -11,7 +11,8 @@ The oracle never uses the Lean model: it re-derives the tree from the document w
 reader of the dialect (`parse_dialect`; generation asserts parse_dialect(render(t)) == t), so corpus files
 and replays are judged the same way.
 """
-import os
+import os, sys
+sys.setrecursionlimit(max(sys.getrecursionlimit(), 50000))   # documents nested 1000 deep and more (max_depth cases)
 from lib.core import Case, GenError, write_if_changed, LEAN
 from lib import cbuild
 from gen import xml_gen, cfun
@@ -54,6 +55,9 @@ MAX_DEPTH = 20
 MAX_NAME = 256
 MAX_ATTRS = 10
 NAMES = [b"a", b"ab", b"abc", b"b", b"aa"]
+# names that extend another name by a byte that is legal in names but is neither a letter nor a digit (and by a digit):
+# `<k-id>` inside `<k>` is not a nested `<k>` (seeded change C12-r6s1)
+EXT_NAMES = [b"k", b"k-id", b"k.x", b"k_", b"k:ns", b"k\xc3\xa9", b"k\x80", b"k\xff", b"k1", b"k-", b"a-b", b"a.b", b"a_b", b"a:b", b"a\xe2\x82\xac"]
 ATTR_NAMES = [b"k", b"id", b"a", b"ab", b"x1", b"ns:t"]
 VALUE_ALPHABET = b"abxyz019/:-._&'#;=a =b"  # the space is removed below
 VALUE_ALPHABET = bytes(c for c in VALUE_ALPHABET if c != 0x20)
@@ -134,7 +138,7 @@ def parse_dialect(doc):
         return len(s) > 0 and not any(c in b"<>/ =\"\t\r\n!?" for c in s)
 
     def elem(p, depth):
-        if depth > 400 or doc[p:p + 1] != b"<":
+        if depth > 5000 or doc[p:p + 1] != b"<":
             return None
         gt = doc.find(b">", p)
         if gt < 0:
@@ -318,9 +322,9 @@ def rand_name(rng, parent=None):
     # names repeat, nest inside themselves and are prefixes / extensions of one another
     if parent is not None and rng.random() < 0.5:
         p = parent
-        cands = [x for x in NAMES if x == p or x.startswith(p) or p.startswith(x)]
+        cands = [x for x in NAMES + EXT_NAMES if x == p or x.startswith(p) or p.startswith(x)]
         return rng.choice(cands)
-    return rng.choice(NAMES)
+    return rng.choice(NAMES if rng.random() < 0.75 else EXT_NAMES)
 
 
 def rand_tree(rng, depth, budget, parent=None, attrs=True):
@@ -400,7 +404,7 @@ def gen_wf(rng, tier):
             kind = "tree"
         elif r < 0.75:
             d = rng.choice([2, 3, 5, 18, 19, 19, 20, 20, 21, 22, 25])
-            root = spine_tree(rng, d, rng.choice([NAMES, [b"a"], [b"a", b"ab"], [b"a", b"aa", b"b"]]))
+            root = spine_tree(rng, d, rng.choice([NAMES, [b"a"], [b"a", b"ab"], [b"a", b"aa", b"b"], EXT_NAMES, [b"k", b"k-id", b"k.x"]]))
             kind = "spine"
         elif r < 0.9:
             md = rng.choice([1, 2, 3, 4])
@@ -444,10 +448,48 @@ def gen_wf(rng, tier):
     # small scope: every tree with <= k elements over two/three names, every action assignment
     cases += small_scope(2, [b"a", b"ab", b"b"], "dbsa")
     cases += small_scope(3, [b"a", b"ab"], "dbs")
+    cases += small_scope(2, [b"k", b"k-id", b"k.x", b"k_", b"k:n", b"k\xc3\xa9"], "dbs")
+    cases += depth_limit_cases(rng, tier)
     if tier == "thorough":
         cases += small_scope(3, [b"a", b"ab", b"aa"], "dbsa")
         cases += small_scope(4, [b"a", b"ab"], "dbs")
     return cases
+
+
+def depth_limit_cases(rng, tier):
+    """options.max_depth other than the default: documents nested at limit-1, limit, limit+1, limit+10, every element
+    descended into (the run is accepted iff the nesting stays below the limit; nothing beyond the limit is reported),
+    and the same with the innermost reachable element read as body / skipped (accepted at the limit too)"""
+    cases = []
+    for md in [1, 2, 19, 20, 21, 24, 50, 1000]:
+        for depth in sorted({max(1, md - 1), md, md + 1, md + 10}):
+            names = rng.choice([[b"a"], [b"a", b"ab", b"b"], NAMES])
+            root = spine_tree(rng, depth, names) if depth <= 60 else chain_tree(rng, depth, names)
+            doc = render_doc(root)
+            selfcheck(root, doc)
+            cases.append(wf_case(doc, "d", md, kind="depth-limit"))
+            # innermost element the limit lets the callback see: read as body instead of descended
+            inner = "/" + "/".join(["0"] * 0)
+            k = min(depth, md) - 1
+            if k >= 1 and depth > 60:
+                cases.append(wf_case(doc, "d," + "".join("/0" for _ in range(k)) + ":" + rng.choice("bs"), md, kind="depth-limit"))
+    # the default limit via max_depth = 0 and explicitly
+    for md in [0, 20]:
+        for depth in [19, 20, 21, 30]:
+            root = chain_tree(rng, depth, [b"a", b"ab"])
+            cases.append(wf_case(render_doc(root), "d", md, kind="depth-limit"))
+    return cases
+
+
+def chain_tree(rng, depth, names):
+    """exactly one element per level"""
+    root = cur = Node(rng.choice(names))
+    for _ in range(depth - 1):
+        nxt = Node(rng.choice(names))
+        cur.kids = [nxt]
+        cur = nxt
+    cur.kids = [b"t"]
+    return root
 
 
 def shapes(n):
